@@ -21,6 +21,7 @@ fn run_prop(id: &str, tier: Tier) -> Option<Report> {
         "C04" => props::c04::run(tier),
         "C05" => props::c04::run_c05(tier),
         "C06" => props::c06::run(tier),
+        "C18" => props::c18::run(tier),
         _ => return None,
     })
 }
@@ -35,6 +36,7 @@ fn replay_case(case: &Value) -> Option<(bool, String)> {
         "c04" => props::c04::replay(case),
         "c05" => props::c04::replay_c05(case),
         "c06" => props::c06::replay(case),
+        "c18" => props::c18::replay(case),
         _ => return None,
     })
 }
